@@ -13,6 +13,8 @@
 
 extern crate iceoryx2_bb_loggers;
 
+mod conn;
+
 use core::fmt::Debug;
 use core::marker::PhantomData;
 use core::mem::MaybeUninit;
@@ -282,21 +284,23 @@ fn run_sched<E: EventState + Debug + 'static>(args: &Args, state: &str) {
             }));
         }
         let waits = prog.l.clone();
+        let listener = Arc::new(std::sync::Mutex::new(listener));
+        let l2 = listener.clone();
         bodies.push(Box::new(move || {
+            let listener = l2.lock().unwrap();
             for w in &waits {
                 sched::yield_api("wait");
-                if !wait_and_log(&listener, nl, w, &|v| sched::log_api(v)) {
+                if !wait_and_log(&*listener, nl, w, &|v| sched::log_api(v)) {
                     break;
                 }
             }
-            // the listener object is leaked when the execution was aborted inside a wait
-            drop(listener);
         }));
         let cfg = RunConfig {
             ranges: vec![],
             max_steps: 4000,
             record_atoms: atoms,
             yield_after,
+            site_filter: None,
         };
         let res = sched::run(cfg, bodies, strat);
         out.emit(&reset);
@@ -330,7 +334,15 @@ fn run_sched<E: EventState + Debug + 'static>(args: &Args, state: &str) {
             anomalies += 1;
         }
         let panics: Vec<Value> = res.panics.iter().map(|(t, m)| json!({"t":t,"msg":m})).collect();
-        out.emit(&json!({"k":"end","outcome":outcome,"dl":dl,"listener":nl,"sched":res.schedule,"panics":panics}));
+        // quiescent observation: what is still recorded in the event state (everybody has finished or
+        // the listener is blocked for ever)
+        let mut left: Vec<Value> = vec![];
+        {
+            let l = listener.lock().unwrap();
+            let _ = l.try_wait(|a: EventActivation| left.push(json!([a.id.as_value(), a.count])));
+        }
+        out.emit(&json!({"k":"end","outcome":outcome,"dl":dl,"listener":nl,"left":left,"sched":res.schedule,"panics":panics}));
+        drop(listener);
         executions += 1;
     };
 
@@ -532,12 +544,42 @@ where
     for (_, e) in &all {
         out.emit(e);
     }
-    out.emit(&json!({"k":"end","outcome":"completed","dl":[],"listener":lt,"sched":[],"panics":[]}));
+    out.emit(&json!({"k":"end","outcome":"completed","dl":[],"listener":lt,"left":[],"sched":[],"panics":[]}));
     out.flush();
     println!(
         "{}",
         json!({"executions": 1, "anomalies": 0, "lines": out.lines, "state": state, "backend": backend, "mode": "free"})
     );
+}
+
+/// the repository's `concurrent_ping_pong_does_not_deadlock` scenario without its watchdog
+fn pingpong<E: EventState + 'static, Ev: Event<E> + 'static>(iterations: u64)
+where
+    Ev::Listener: 'static,
+    Ev::Notifier: 'static,
+{
+    let ping = fresh_name("ping");
+    let pong = fresh_name("pong");
+    let ping_l = Ev::ListenerBuilder::new(&ping).create().unwrap();
+    let ping_n = Ev::NotifierBuilder::new(&ping).open().unwrap();
+    let pong_l = Ev::ListenerBuilder::new(&pong).create().unwrap();
+    let pong_n = Ev::NotifierBuilder::new(&pong).open().unwrap();
+    let t0 = std::time::Instant::now();
+    let a = std::thread::spawn(move || {
+        for _ in 0..iterations {
+            ping_n.notify(EventId::new(0)).unwrap();
+            pong_l.blocking_wait(|_| {}).unwrap();
+        }
+    });
+    let b = std::thread::spawn(move || {
+        for _ in 0..iterations {
+            ping_l.blocking_wait(|_| {}).unwrap();
+            pong_n.notify(EventId::new(0)).unwrap();
+        }
+    });
+    a.join().unwrap();
+    b.join().unwrap();
+    println!("{}", json!({"pingpong": "completed", "iterations": iterations, "secs": t0.elapsed().as_secs_f64()}));
 }
 
 fn main() {
@@ -550,6 +592,15 @@ fn main() {
             "counting" => run_sched::<RelocatableCountingBitSet>(&args, "counting"),
             _ => panic!("unknown state"),
         },
+        Some("conn") => conn::main(&args),
+        Some("pingpong") => {
+            let n = args.num("iterations", 10000);
+            match args.get_or("backend", "semaphore").as_str() {
+                "semaphore" => pingpong::<RelocatableBitSet, SemaphoreShmBitSet>(n),
+                "udsock" => pingpong::<RelocatableCountingBitSet, UnixDatagramShmCountingBitSet>(n),
+                _ => pingpong::<RelocatableBitSet, SocketPairBitSet>(n),
+            }
+        }
         Some("free") => {
             let backend = args.get_or("backend", "semaphore");
             match (backend.as_str(), state.as_str()) {
